@@ -466,7 +466,9 @@ def _effects(r, p, rt, fx):
 
 
 def _gating(r, p, cg, rt):
-    rl_fix = p.function("vsg.rule_list:rule_list.fix")
+    from ..model import inline_helpers
+
+    rl_fix = inline_helpers(p, p.function("vsg.rule_list:rule_list.fix"), toward={"fix", "analyze"})
     facts = Facts(rl_fix.node)
     calls = [n for n in walk_function(rl_fix.node) if isinstance(n, ast.Call) and isinstance(n.func, ast.Attribute) and n.func.attr == "fix" and isinstance(n.func.value, ast.Name) and n.func.value.id.startswith("oRule")]
     if not calls:
@@ -480,7 +482,9 @@ def _gating(r, p, cg, rt):
         else:
             r.fail("C03.gating", kk + ":not-disabled", "a rule's fix is called without filtering out disabled rules", rl_fix.loc(c))
         conds = dict(facts.conds_at(c))
-        if any(v and k.replace(" ", "") in ("%s.severity.type==severity.error_type" % rv, "severity.error_type==%s.severity.type" % rv) for k, v in conds.items()):
+        eqs = ("%s.severity.type==severity.error_type" % rv, "severity.error_type==%s.severity.type" % rv)
+        nes = tuple(x.replace("==", "!=") for x in eqs)
+        if any((v and k.replace(" ", "") in eqs) or (v is False and k.replace(" ", "") in nes) for k, v in conds.items()):
             r.ok("C03.gating", kk + ":error-type", "only error-type rules are fixed (warnings are analysed only)")
         else:
             r.fail("C03.gating", kk + ":error-type", "a rule's fix is called regardless of its severity type: warning rules would change the file", rl_fix.loc(c))
